@@ -1,0 +1,65 @@
+package c14n_test
+
+import (
+	"strings"
+	"testing"
+
+	"github.com/invopop/gobl/c14n"
+	"github.com/stretchr/testify/assert"
+	"github.com/stretchr/testify/require"
+)
+
+func TestCanonicalJSONEncoding(t *testing.T) {
+	t.Run("replacement character is a valid character", func(t *testing.T) {
+		for _, in := range []string{"\"a\ufffdb\"", `"a\ufffdb"`, `"a\uFFFDb"`} {
+			out, err := c14n.CanonicalJSON(strings.NewReader(in))
+			require.NoError(t, err, in)
+			assert.Equal(t, "\"a\ufffdb\"", string(out), in)
+		}
+		out, err := c14n.CanonicalJSON(strings.NewReader("{\"\ufffd\":\"\\ufffd\"}"))
+		require.NoError(t, err)
+		assert.Equal(t, "{\"\ufffd\":\"\ufffd\"}", string(out))
+	})
+	t.Run("surrogate pairs", func(t *testing.T) {
+		for _, in := range []string{`"\ud83d\ude00"`, `"\uD83D\uDE00"`, "\"\U0001f600\""} {
+			out, err := c14n.CanonicalJSON(strings.NewReader(in))
+			require.NoError(t, err, in)
+			assert.Equal(t, "\"\U0001f600\"", string(out), in)
+		}
+		// an escaped backslash does not start an escape sequence
+		out, err := c14n.CanonicalJSON(strings.NewReader(`"\\ud800"`))
+		require.NoError(t, err)
+		assert.Equal(t, `"\\ud800"`, string(out))
+	})
+	t.Run("invalid encoding is rejected", func(t *testing.T) {
+		for _, in := range []string{
+			"\"a\xffb\"",           // not UTF-8
+			"\"\xc0\xaf\"",         // overlong
+			"\"\xed\xa0\x80\"",     // encoded surrogate
+			"{\"\xff\":1}",         // in a key
+			"{\"\xff\":null}",      // in a key that is dropped
+			`"\ud800"`,             // high surrogate alone
+			`"\ude00"`,             // low surrogate alone
+			`"\ude00\ud83d"`,       // wrong order
+			`"\ud83d\u0041"`,       // high surrogate followed by another escape
+			`"\ud83dx\ude00"`,      // halves apart
+			`"\ud83d\ud83d\ude00"`, // high surrogate before a pair
+			`{"\udfff":1}`,         // in a key
+			`["\\\ud800"]`,         // after an escaped backslash
+		} {
+			_, err := c14n.CanonicalJSON(strings.NewReader(in))
+			assert.Error(t, err, in)
+		}
+	})
+}
+
+func TestStringMarshalJSONEncoding(t *testing.T) {
+	d, err := c14n.String("a\ufffdb").MarshalJSON()
+	require.NoError(t, err)
+	assert.Equal(t, "\"a\ufffdb\"", string(d))
+
+	_, err = c14n.String("a\xffb").MarshalJSON()
+	assert.Error(t, err)
+	_, err = c14n.String("\xef\xbf").MarshalJSON() // truncated U+FFFD
+	assert.Error(t, err)
+}
